@@ -38,7 +38,7 @@ Definition vm_out_code (o : vm_out) : Z :=
   | VOk => 0 | VOkDropped => 1 | VErrNoListener => 2 | VErrAuth => 3 | VErrUser => 4 | VErrEnc => 5 | VErrClosed => 6
   end.
 Definition nh_resp_code (o : vnh_out) : Z :=
-  match o with NhPreOk => 0 | NhErrNoServer => 1 | NhErrUser => 2 | NhErrAuth => 3 | NhNotified _ _ => 9 end.
+  match o with NhPreOk => 0 | NhErrNoServer => 1 | NhErrUser => 2 | NhErrAuth => 3 | NhNotified _ _ => 9 | NhUndelivered => 9 end.
 
 (* ---- driver (i): visitor.Manager ---- *)
 Inductive vm_op :=
@@ -91,7 +91,10 @@ Definition vm_tss (ops : list vm_op) : list Z :=
 Inductive nh_op :=
 | NhListen (name sk : bytes) (allow : list bytes)
 | NhClose (name : bytes)
-| NhVisitor (name : bytes) (ts : Z) (sign : bytes) (pre : bool) (user : bytes).
+| NhVisitor (name : bytes) (ts : Z) (sign : bytes) (pre : bool) (user : bytes) (recv : bool)
+  (* recv: the driver has a receiver on the owners' channels (false = owner gone: nobody receives for NatHoleTimeout) *)
+| NhSessionEnd (sid : bytes)   (* an admitted HandleVisitor call was observed to have returned *)
+| NhCount.                     (* observe len(sessions) *)
 
 Definition opt_pair_eqb (a b : option (bytes * bytes)) : bool :=
   match a, b with
@@ -106,26 +109,28 @@ Definition nh_step (hash : bytes -> Z -> bytes) (s : vnh_state) (op : nh_op) (o 
       let '(s', r) := vnh_listen_client s name sk allow in
       (s', match o with ObsZ z => z =? lout_code r | _ => false end)
   | NhClose name => (vnh_close_client s name, true)
-  | NhVisitor name ts sign pre user =>
+  | NhVisitor name ts sign pre user recv =>
       match o with
       | ObsNh resp notified others mid fin =>
           let sid := match notified with Some (_, sid) => sid | None => [] end in
           let before := Z.of_nat (length (nh_sessions s)) in
-          let '(s1, r) := vnh_handle_visitor hash s name ts sign pre user sid in
-          let mid_model := Z.of_nat (length (nh_sessions s1)) in
-          let s2 := match r with NhNotified _ sid' => vnh_session_end s1 sid' | _ => s1 end in
+          let '(s1, r) := vnh_handle_visitor hash s name ts sign pre user sid recv in
           let ok :=
             (resp =? nh_resp_code r) && (others =? 0) &&
             opt_pair_eqb notified (match r with NhNotified n sid' => Some (n, sid') | _ => None end) &&
-            (match r with NhNotified _ _ => mid =? mid_model | _ => mid =? before end) &&
-            (fin =? Z.of_nat (length (nh_sessions s2))) in
-          (s2, ok)
+            (* sessions in the table: while the owner is being notified, and when the step is over *)
+            (match r with NhNotified _ _ => mid =? Z.of_nat (length (nh_sessions s1)) | _ => mid =? before end) &&
+            (fin =? Z.of_nat (length (nh_sessions s1))) in
+          (s1, ok)
       | _ => (s, false)
       end
+  | NhSessionEnd sid => (vnh_session_end s sid, true)
+  | NhCount => (s, match o with ObsZ z => z =? Z.of_nat (length (nh_sessions s)) | _ => false end)
   end.
 
 Definition nh_op_code (op : nh_op) : Z :=
-  match op with NhListen _ _ _ => 21 | NhClose _ => 22 | NhVisitor _ _ _ pre _ => if pre then 23 else 24 end.
+  match op with NhListen _ _ _ => 21 | NhClose _ => 22 | NhVisitor _ _ _ pre _ _ => if pre then 23 else 24
+              | NhSessionEnd _ => 25 | NhCount => 26 end.
 
 Fixpoint nh_replay (hash : bytes -> Z -> bytes) (s : vnh_state) (i : Z) (ops : list nh_op) (obs : list vobs) : Z :=
   match ops, obs with
@@ -139,7 +144,7 @@ Fixpoint nh_replay (hash : bytes -> Z -> bytes) (s : vnh_state) (i : Z) (ops : l
 Definition nh_sks (ops : list nh_op) : list bytes :=
   flat_map (fun op => match op with NhListen _ sk _ => [sk] | _ => [] end) ops.
 Definition nh_tss (ops : list nh_op) : list Z :=
-  flat_map (fun op => match op with NhVisitor _ ts _ _ _ => [ts] | _ => [] end) ops.
+  flat_map (fun op => match op with NhVisitor _ ts _ _ _ _ => [ts] | _ => [] end) ops.
 
 (* ---- driver (iii): in-process frps with scripted sessions ---- *)
 (* observation per system op:
@@ -157,10 +162,10 @@ Definition sys_obs_ok (op : sop) (o : sout) (ob : vobs) : bool :=
   | SVisitorConn _ _ _ _ _ _ _ _, OVisErrNoControl, ObsZ z => z =? 8
   | SAccept _, OAccepted c, _ => obs_eq_accept (Some c) ob
   | SAccept _, OAcceptNone, _ => obs_eq_accept None ob
-  | SNatHole _ _ _ _ _ _, ONh r, ObsNh resp notified others _ _ =>
+  | SNatHole _ _ _ _ _ _ _, ONh r, ObsNh resp notified others _ _ =>
       (resp =? nh_resp_code r) && (others =? 0) &&
       opt_pair_eqb notified (match r with NhNotified n sid' => Some (n, sid') | _ => None end)
-  | SNatHole _ _ _ _ _ _, ONoSession, ObsZ z => z =? 7
+  | SNatHole _ _ _ _ _ _ _, ONoSession, ObsZ z => z =? 7
   | (SLogin _ _ | SLogout _ | SClose _ _ | SSessionEnd _), ONone, ObsZ z => z =? 0
   | _, _, _ => false
   end.
@@ -168,7 +173,7 @@ Definition sys_obs_ok (op : sop) (o : sout) (ob : vobs) : bool :=
 Definition sys_op_code (op : sop) : Z :=
   match op with
   | SLogin _ _ => 31 | SLogout _ => 32 | SRegister _ _ _ _ _ => 33 | SClose _ _ => 34
-  | SVisitorConn _ _ _ _ _ _ _ _ => 35 | SNatHole _ _ _ _ pre _ => if pre then 36 else 37
+  | SVisitorConn _ _ _ _ _ _ _ _ => 35 | SNatHole _ _ _ _ pre _ _ => if pre then 36 else 37
   | SSessionEnd _ => 38 | SAccept _ => 39
   end.
 
@@ -184,7 +189,7 @@ Fixpoint sys_replay (hash : bytes -> Z -> bytes) (s : sys) (i : Z) (ops : list s
 Definition sys_sks (ops : list sop) : list bytes :=
   flat_map (fun op => match op with SRegister _ _ _ sk _ => [sk] | _ => [] end) ops.
 Definition sys_tss (ops : list sop) : list Z :=
-  flat_map (fun op => match op with SVisitorConn _ _ ts _ _ _ _ _ => [ts] | SNatHole _ _ ts _ _ _ => [ts] | _ => [] end) ops.
+  flat_map (fun op => match op with SVisitorConn _ _ ts _ _ _ _ _ => [ts] | SNatHole _ _ ts _ _ _ _ => [ts] | _ => [] end) ops.
 
 (* ---- transparency through real frpc owner + real frpc visitor (observed only) ---- *)
 (* CE2E visitor flags, proxy flags, payload length, delivered = sent in both directions, backend contacted once *)
@@ -238,12 +243,13 @@ Fixpoint mon_nh (hash : bytes -> Z -> bytes) (live : list (bytes * mreg)) (ops :
           if z =? 0 then mon_nh hash (vset name {| mr_sk := sk; mr_allow := allow |} live) ops' obs'
           else mon_nh hash live ops' obs'
       | NhClose name, _ => mon_nh hash (vdel name live) ops' obs'
-      | NhVisitor name ts sign pre user, ObsNh resp notified others mid fin =>
-          (others =? 0) && (fin =? 0) &&
+      | NhVisitor name ts sign pre user _, ObsNh resp notified others mid fin =>
+          (others =? 0) &&
           match notified with
           | Some (n, _) => bytes_eqb n name && negb pre && mon_admit hash live name ts sign user true
-          | None => (mid =? 0) && (if resp =? 0 then pre && mon_admit hash live name ts sign user false else true)
+          | None => (mid =? fin) && (if resp =? 0 then pre && mon_admit hash live name ts sign user false else true)
           end && mon_nh hash live ops' obs'
+      | NhCount, ObsZ z => (z =? 0) && mon_nh hash live ops' obs'
       | _, _ => mon_nh hash live ops' obs'
       end
   | _, _ => true
@@ -290,7 +296,7 @@ Fixpoint mon_sys (hash : bytes -> Z -> bytes) (m : msys) (adm : list (bytes * Z)
       | SAccept name, ObsAccept cid _ _ _ tr =>
           if cid =? -1 then mon_sys hash m adm ops' obs'
           else existsb (fun e : bytes * Z => bytes_eqb (fst e) name && (snd e =? cid)) adm && tr && mon_sys hash m adm ops' obs'
-      | SNatHole rid name ts sign pre _, ObsNh resp notified others _ _ =>
+      | SNatHole rid name ts sign pre _ _, ObsNh resp notified others _ _ =>
           (others =? 0) &&
           match notified with
           | Some (n, _) =>
@@ -353,15 +359,17 @@ Definition n_vm_newconn (z : Z) : list case -> Z :=
 Definition n_vm_accepted : list case -> Z :=
   sum_over vm_pairs (fun p => match p with (VmAccept _, ObsAccept cid _ _ _ _) => negb (cid =? -1) | _ => false end).
 Definition n_nh_notified : list case -> Z :=
-  sum_over nh_pairs (fun p => match p with (NhVisitor _ _ _ _ _, ObsNh _ (Some _) _ _ _) => true | _ => false end).
+  sum_over nh_pairs (fun p => match p with (NhVisitor _ _ _ _ _ _, ObsNh _ (Some _) _ _ _) => true | _ => false end).
 Definition n_nh_resp (z : Z) (pre : bool) : list case -> Z :=
-  sum_over nh_pairs (fun p => match p with (NhVisitor _ _ _ pre' _, ObsNh r None _ _ _) => (r =? z) && Bool.eqb pre pre' | _ => false end).
+  sum_over nh_pairs (fun p => match p with (NhVisitor _ _ _ pre' _ _, ObsNh r None _ _ _) => (r =? z) && Bool.eqb pre pre' | _ => false end).
 Definition n_sys_vis (z : Z) : list case -> Z :=
   sum_over sys_pairs (fun p => match p with (SVisitorConn _ _ _ _ _ _ _ _, ObsZ y) => y =? z | _ => false end).
 Definition n_sys_backend : list case -> Z :=
   sum_over sys_pairs (fun p => match p with (SAccept _, ObsAccept cid _ _ _ _) => negb (cid =? -1) | _ => false end).
 Definition n_sys_notified : list case -> Z :=
-  sum_over sys_pairs (fun p => match p with (SNatHole _ _ _ _ _ _, ObsNh _ (Some _) _ _ _) => true | _ => false end).
+  sum_over sys_pairs (fun p => match p with (SNatHole _ _ _ _ _ _ _, ObsNh _ (Some _) _ _ _) => true | _ => false end).
 Definition n_sys_nh_resp (z : Z) : list case -> Z :=
-  sum_over sys_pairs (fun p => match p with (SNatHole _ _ _ _ _ _, ObsNh r None _ _ _) => r =? z | _ => false end).
+  sum_over sys_pairs (fun p => match p with (SNatHole _ _ _ _ _ _ _, ObsNh r None _ _ _) => r =? z | _ => false end).
+Definition n_nh_undelivered : list case -> Z :=
+  sum_over nh_pairs (fun p => match p with (NhVisitor _ _ _ false _ false, ObsNh 9 None _ _ _) => true | _ => false end).
 Definition n_e2e : list case -> Z := count_if (fun c => match c with CE2E _ _ _ _ _ _ _ _ _ => true | _ => false end).
